@@ -106,6 +106,11 @@ fn main() {
         pfvcore::props_c14::digest_main(&*cur, &args[2], &args[3]);
         return;
     }
+    if args.len() == 3 && args[1] == "cabienv" {
+        // no panic hook, no output: stdout / stderr are deliberately unusable in this child
+        pfvcore::props_file::cabienv_main(&Cur, &args[2]);
+        return;
+    }
     if args.len() == 3 && args[1] == "mkinputs" {
         install_panic_hook();
         pfvcore::props_c14::Inputs::build(&Cur).save(&args[2]);
